@@ -34,6 +34,9 @@ def run(ctx):
             e["t"] = 3 if pk == "b1t6" else 4
         events += g + t
     vlib.note_events(ctx, events)
+    vlib.call_history_model(ctx)
+    vlib.call_histories(ctx, bins["b1t6"], [e for e in events if e.get("t") == 3], ["b1t6.Encode", "b1t6.DecodeTrytes"], "B1TTrace",
+                        "real b1t6 result is not the one the B1T specification defines")
     bad = vlib.validate_trace(ctx, "B1TTrace", events)
     for pk, binp in bins.items():
         for e in vlib.reproduce(ctx, binp, [b for b in bad if b["op"].startswith(pk + ".")], history=events):
